@@ -416,6 +416,14 @@ func (ec *evalCtx) ghostLvalOf(e ast.Expr) (lval, bool) {
 
 // havocGhost assigns a fresh value to a ghost location.
 func (ec *evalCtx) havocGhost(e ast.Expr) bool {
+	// reach(x): everything reachable from x through pointers (x is handed to callees without contract)
+	if call, ok := e.(*ast.CallExpr); ok && exprString(call.Fun) == "reach" && len(call.Args) == 1 {
+		v := ec.eval(call.Args[0])
+		ec.argsOnly = true
+		ec.havocReachable(nil, []Value{v})
+		ec.argsOnly = false
+		return true
+	}
 	if call, ok := e.(*ast.CallExpr); ok && exprString(call.Fun) == "doc" && len(call.Args) == 1 {
 		w := ec.eval(call.Args[0])
 		if sv, ok := ec.runtimeBuffer(w); ok {
